@@ -3,6 +3,7 @@ project the real objects back to the abstract state of NetBuild.tla.
 The projection reads only public API (net.graph, the lookup properties, is_valid)."""
 from __future__ import annotations
 
+import json
 import zlib
 
 import os
@@ -30,16 +31,23 @@ def name_of(i: str) -> str:
     return i
 
 
+POOL: dict = {}   # objects shared by the networks of one worker process (a Node may belong to several networks)
+
+
 class Universe:
     """fresh objects for one replay; ids: n* nodes, l* links, o* plain origins, r* metered ramps, d* destinations"""
 
-    def __init__(self):
+    def __init__(self, shared: bool = False):
         import sym_metanet as sm
         self.sm = sm
         self.obj, self.ido = {}, {}
+        self.shared = shared     # nodes and elements are the SAME objects in every network of this process
         self.net = sm.Network(name="replay")
 
     def get(self, i: str):
+        if self.shared and i not in self.obj and i in POOL:
+            self.obj[i] = POOL[i]
+            self.ido[id(POOL[i])] = i
         if i not in self.obj:
             sm = self.sm
             k = i[0]
@@ -59,6 +67,8 @@ class Universe:
                 raise ValueError(f"unknown id {i}")
             self.obj[i] = o
             self.ido[id(o)] = i
+            if self.shared:
+                POOL[i] = o
         return self.obj[i]
 
     def idof(self, o) -> str:
@@ -238,7 +248,7 @@ def same_dict(a, b) -> bool:
 
 def replay_transition(t: dict, read_each: bool = False) -> dict:
     """replay one TLC transition (history h, last call's expected result and post-state); returns findings"""
-    U = Universe()
+    U = Universe(shared=zlib.crc32(json.dumps(t["h"]).encode()) % 2 == 1)
     out = {"c08": [], "c09": [], "c06": [], "drift": []}
     last = None
     failed_before = False
@@ -285,7 +295,7 @@ def replay_transition(t: dict, read_each: bool = False) -> dict:
         if last[0] != "value" or (graph_ok and sorted(map(tuple, last[1])) != sorted(map(tuple, exp_res[1]))):
             out["c08"].append(["per-node view differs from the specification", c, last, exp_res])
     cached_before = U.cached()
-    if graph_ok and sorted(cached_before) != sorted(t["cached"]):
+    if graph_ok and not read_each and sorted(cached_before) != sorted(t["cached"]):   # (reads after every call memoise everything)
         out["drift"].append(["memoised set differs from the model", cached_before, t["cached"]])
     allr = U.read_all()
     for k in LOOKUPS:
